@@ -210,6 +210,21 @@ abbrev PGap := List GapItem
 /-- a line ending: LF or CRLF -/
 def eolText (crlf : Bool) : List UInt8 := if crlf then [13, 10] else [10]
 
+/-- how a line of a file ends: LF, CRLF, or — the last line only — with the file -/
+inductive PEol where
+  | lf | crlf | eof
+  deriving Repr, DecidableEq, Inhabited
+
+def lineEnd : PEol → List UInt8
+  | .lf => [10]
+  | .crlf => [13, 10]
+  | .eof => []
+
+/-- the lines a line end adds to the count -/
+def eolLines : PEol → Nat
+  | .eof => 0
+  | _ => 1
+
 def gapItemText : GapItem → List UInt8
   | .blank tab => [if tab then 9 else 32]
   | .openParen => [40]
@@ -352,7 +367,7 @@ def rdataWire (origin : Option (List UInt8)) : PRdata → Option (List UInt8)
   One entry per line — or, with parentheses, several.  Records: `[owner] [ttl] [class] type rdata
   [;comment]`.  The gaps between the fields and after the last one are any mix of blanks, `(`,
   `)` and — inside parentheses — line ends (LF or CRLF) with optional comments.  Lines end with
-  LF or CRLF.  Owner: an absolute name, a relative name (completed with the origin), `@`
+  LF or CRLF (the last one possibly with the end of the file).  Owner: an absolute name, a relative name (completed with the origin), `@`
   (the origin) — names in any mix of octet forms — or omitted (leading blanks: same owner as
   before).  TTL and class written (decimal; mnemonic in any case or `CLASSnnn`; in either order)
   or omitted.  Type: mnemonic in any case or `TYPEnnn`.  RDATA: the RFC 3597 form `\# len hex`
@@ -360,8 +375,9 @@ def rdataWire (origin : Option (List UInt8)) : PRdata → Option (List UInt8)
   SRV, TXT, HINFO, AAAA (names relative / absolute / `@`; character-strings quoted or unquoted with
   escapes).  Directives: `$ORIGIN <absolute name>`, `$TTL <decimal>`,
   `$INCLUDE <path> [<origin>]`.  Blank and comment-only
-  lines.  Not in this subset (see C23.lean): `::`-compressed or IPv4-suffixed AAAA, WKS and Chaosnet A typed syntax,
-  a last line without newline. -/
+  lines.  The last line may end with the file instead
+  of a line end.  Not in this subset (see C23.lean): `::`-compressed or IPv4-suffixed AAAA, WKS and Chaosnet A
+  typed syntax. -/
 
 inductive POwner where
   | same
@@ -381,19 +397,19 @@ structure PRecord where
   gaps : List PGap         -- gap 0: between type and RDATA; gap i+1: after the i-th RDATA field
   tail : PGap              -- after the last field (closes the parentheses, if open)
   comment : List UInt8
-  crlf : Bool
+  eol : PEol
   deriving Repr, Inhabited
 
 inductive PEntry where
-  | blank (ws comment : List UInt8) (crlf : Bool)
+  | blank (ws comment : List UInt8) (eol : PEol)
   | record (p : PRecord)
   /-- `$ORIGIN <absolute name>`; `gap` after the keyword, `tail` after the name -/
-  | origin (ls : List PLabel) (gap tail : PGap) (comment : List UInt8) (crlf : Bool)
+  | origin (ls : List PLabel) (gap tail : PGap) (comment : List UInt8) (eol : PEol)
   /-- `$TTL <decimal>` -/
-  | ttl (n : Nat) (gap tail : PGap) (comment : List UInt8) (crlf : Bool)
+  | ttl (n : Nat) (gap tail : PGap) (comment : List UInt8) (eol : PEol)
   /-- `$INCLUDE <path> [<origin>]`: the path a string (quoted or not), the origin a name; `gap2`
       stands between them -/
-  | incl (path : PString) (origin : Option PName) (gap gap2 tail : PGap) (comment : List UInt8) (crlf : Bool)
+  | incl (path : PString) (origin : Option PName) (gap gap2 tail : PGap) (comment : List UInt8) (eol : PEol)
   deriving Repr, Inhabited
 
 def ownerText : POwner → List UInt8
@@ -421,20 +437,20 @@ def renderRecord (p : PRecord) : List UInt8 :=
   ownerText p.owner ++ gapText (gapAt p.head 0) ++
   ttlClassText (gapText (gapAt p.head 1)) (gapText (gapAt p.head 2)) p.ttl p.cls p.clsFirst ++
   typeText p.ty ++ gapText (gapAt p.gaps 0) ++ rdataText (fun i => gapAt p.gaps (i + 1)) p.rdata ++
-  (gapText p.tail ++ (p.comment ++ eolText p.crlf))
+  (gapText p.tail ++ (p.comment ++ lineEnd p.eol))
 
 def renderEntry : PEntry → List UInt8
-  | .blank ws comment crlf => ws ++ comment ++ eolText crlf
+  | .blank ws comment eol => ws ++ comment ++ lineEnd eol
   | .record p => renderRecord p
-  | .origin ls gap tail comment crlf =>
-    [36, 79, 82, 73, 71, 73, 78] ++ gapText gap ++ renderAbsName ls ++ gapText tail ++ comment ++ eolText crlf   -- `$ORIGIN`
-  | .ttl n gap tail comment crlf =>
-    [36, 84, 84, 76] ++ gapText gap ++ decimal n ++ gapText tail ++ comment ++ eolText crlf                       -- `$TTL`
-  | .incl path origin gap gap2 tail comment crlf =>
+  | .origin ls gap tail comment eol =>
+    [36, 79, 82, 73, 71, 73, 78] ++ gapText gap ++ renderAbsName ls ++ gapText tail ++ comment ++ lineEnd eol   -- `$ORIGIN`
+  | .ttl n gap tail comment eol =>
+    [36, 84, 84, 76] ++ gapText gap ++ decimal n ++ gapText tail ++ comment ++ lineEnd eol                       -- `$TTL`
+  | .incl path origin gap gap2 tail comment eol =>
     [36, 73, 78, 67, 76, 85, 68, 69] ++ gapText gap ++ stringText path ++                                          -- `$INCLUDE`
       (match origin with
        | some n => gapText gap2 ++ nameText n
-       | none => []) ++ gapText tail ++ comment ++ eolText crlf
+       | none => []) ++ gapText tail ++ comment ++ lineEnd eol
 
 def renderFile (es : List PEntry) : List UInt8 := es.flatMap renderEntry
 
